@@ -1,5 +1,6 @@
 import Martian.Lexer
 import Martian.Regex
+import Martian.LexerId
 import Martian.Tokenizer
 import Martian.LexerActions
 import Gen.Facts
@@ -76,6 +77,14 @@ def actIntStr : Action Int → String
 
 def handle (op : String) (args : List String) : Option String :=
   match op, args with
+  -- the hand-written identifier recogniser
+  | "id", [s] => do
+    let b ← bytesOfHex s
+    pure (optTok (matchId b))
+  -- every rune in [0x80, 0x10FFFF] the model takes for white space
+  | "unispaces", [] =>
+    pure (" ".intercalate (((List.range 0x110000).filter fun r => r ≥ 0x80 && Martian.Tokenizer.isUniSpace r).map
+      fun r => String.ofList (Nat.toDigits 16 r)))
   | "rules", [] =>
     pure (boolStr (Gen.tokIntRegex == intRuleSrc) ++ " " ++
           boolStr (Gen.tokFloatRegex == floatRuleSrc) ++ " " ++
